@@ -186,10 +186,10 @@ def c01(tier, seed):
             out.append(scenario("c01-pruned-%s-%d-%d" % (tn, sd, len(out)), {"body": TEMPLATES[tn]()},
                                 {"checks": 100, "seed": sd, "nofailfile": "true", "shrinktime": "0s"}, tag={"template": tn, "shrink": "0s"}))
     names = sorted(TEMPLATES)
-    nseeds = 3 if tier == "quick" else 60
+    nseeds = 3 if tier == "quick" else 25
     for tn in names:
         for sd in seeds(rng, nseeds):
-            for checks in ((100,) if tier == "quick" else (1, 5, 100)):
+            for checks in ((100,) if tier == "quick" else (5, 100)):
                 mode = rng.choice(["0s", "full", "cut"]) if tier == "quick" else None
                 for st in ([mode] if mode else ["0s", "full", "cut", "cut"]):
                     prop = {"body": TEMPLATES[tn]()}
